@@ -119,4 +119,5 @@ def run(pid, tier, seed, *, mc, gen, rand_fn, mon, assumptions, rule, level="mod
         C.write_evidence(pid, tier, seed, level, cov, assumptions, time.time() - t0, len(viols))
         return 1 if viols else 0
     finally:
-        shutil.rmtree(wd, ignore_errors=True)
+        if not os.environ.get("VERIF_KEEP"):
+            shutil.rmtree(wd, ignore_errors=True)
